@@ -38,8 +38,8 @@ Ops_ATopAll == {"acreate", "call", "pcall", "callown", "owndrop", "ownclone", "k
 Ops_AMethAll == {"stop", "fail", "call", "pcall", "defer", "keepown", "owndrop", "ret", "retdrop", "keepret", "acreate"}
 Ops_AMeth == {"stop", "fail", "call", "pcall", "defer"}
 \* query!-focused: synchronous queries against every lifecycle state, mixed with queued calls and kills
-Ops_YTop == {"acreate", "query", "call", "pcall", "kill", "owndrop", "run", "zombie"}
-Ops_YBody == {"query", "defer"}
+Ops_YTop == {"acreate", "query", "apply", "call", "pcall", "kill", "owndrop", "run", "zombie"}
+Ops_YBody == {"query", "apply", "defer"}
 Ops_YMeth == {"stop", "fail", "call"}
 \* ActorOwnSlab-focused: children created from methods, dying while the parent keeps adding
 Ops_STop == {"acreate", "call", "owndrop", "kill", "run", "slablen"}
